@@ -168,7 +168,8 @@ def compare_case(case, mvals, rres, judge_kinds=None, judge_obj=True):
             return []
         return [{"what": "the specification is rejected by the model (constraint that cannot be placed) "
                          "but rockit transcribed it without raising"}]
-    if "error" in rres and ("You passed a constant" in rres["error"] or "never statisfied" in rres["error"]):
+    if "error" in rres and ("You passed a constant" in rres["error"] or "never statisfied" in rres["error"]
+                            or "Constraint must contain decision variables" in rres["error"]):
         # a generated relation folded to a constant inside CasADi: the model has no symbolic
         # simplifier, the case is skipped (counted, never an alarm)
         return []
